@@ -239,6 +239,43 @@ func RunAnyutil(c *core.Ctx) {
 	}
 	c.Ok("ANY.url", "anyutil host-prefix scan", "no host-like string constants", "", src)
 
+	// packing and unpacking leave the process-wide registries alone: what an Any resolves to depends only on the
+	// resolvers handed in (or the global ones as they are), never on earlier calls
+	nReg := 0
+	for _, m := range sp.Members {
+		f, ok := m.(*ssa.Function)
+		if !ok {
+			continue
+		}
+		for _, fn := range append([]*ssa.Function{f}, f.AnonFuncs...) {
+			allInstrs(fn, func(b *ssa.BasicBlock, in ssa.Instruction) {
+				switch t := in.(type) {
+				case ssa.CallInstruction:
+					cn := calleeName(t.Common())
+					if t.Common().IsInvoke() {
+						cn = t.Common().Method.Name()
+					}
+					if i := strings.LastIndex(cn, "."); i >= 0 {
+						cn = cn[i+1:]
+					}
+					cn = strings.TrimSuffix(cn, ")")
+					if strings.HasPrefix(cn, "Register") {
+						nReg++
+						c.Fail("ANY.global", "anyutil."+fn.Name()+" calls "+cn, "a registry is modified while packing/unpacking: later calls resolve type URLs differently from what their resolvers say", pos(in.Pos()), src)
+					}
+				case *ssa.Store:
+					if g, ok := t.Addr.(*ssa.Global); ok && g.Pkg != sp {
+						nReg++
+						c.Fail("ANY.global", "anyutil."+fn.Name()+" stores to "+g.String(), "a variable of another package is assigned", pos(in.Pos()), src)
+					}
+				}
+			})
+		}
+	}
+	if nReg == 0 {
+		c.Ok("ANY.global", "anyutil registry scan", "no Register* call and no store to another package's variable", "", src)
+	}
+
 	// ---------------- New: result is dst only when MarshalFrom returned nil
 	{
 		okNew := false
